@@ -24,6 +24,8 @@ type SolveResult struct {
 	Query    string
 	Tried    []string
 	Confirm  string // second solver's verdict in thorough tier
+	Level    int
+	FR       *FuncResult
 }
 
 type solverSpec struct {
@@ -40,13 +42,115 @@ var solvers = []solverSpec{
 	{"z3-4.8.12", func(ms int) []string { return []string{"z3", "-in", fmt.Sprintf("-t:%d", ms)} }, nil},
 }
 
-func buildQuery(r *FuncResult, o *Oblig) string {
+var symMu sync.Mutex
+var symIDs = map[string]int{}
+var symCache = map[int][]int{}
+
+// termSyms returns the ids of the free symbols of t (cached).
+func termSyms(t *Term) []int {
+	symMu.Lock()
+	defer symMu.Unlock()
+	if s, ok := symCache[t.id]; ok {
+		return s
+	}
+	set := map[string]bool{}
+	Symbols(t, set, map[int]bool{})
+	out := make([]int, 0, len(set))
+	for n := range set {
+		id, ok := symIDs[n]
+		if !ok {
+			id = len(symIDs) + 1
+			symIDs[n] = id
+		}
+		out = append(out, id)
+	}
+	symCache[t.id] = out
+	return out
+}
+
+// candidates: the assumptions made on paths that can reach the obligation.
+func candidates(r *FuncResult, o *Oblig) []*Term {
+	var cands []*Term
+	cands = append(cands, r.BaseFacts...)
+	for i, a := range r.Assumes[:o.NAssume] {
+		ab := r.AssumeBlk[i]
+		if ab >= 0 && o.Blk >= 0 && r.anc != nil && !r.anc[o.Blk][ab] {
+			continue // made on a path that cannot reach this obligation
+		}
+		cands = append(cands, a)
+	}
+	return cands
+}
+
+// buildQuery assembles the negated VC of one obligation, restricted to the
+// cone of influence of the goal's symbols. level 0: symbols that occur in very
+// many assumptions (hubs) do not pull assumptions in and the closure is cut
+// after three rounds; level 1: full closure. Dropping assumptions is sound
+// (it can only make an obligation harder to discharge), so level 0 answers
+// "unsat" are final and anything else is retried at level 1.
+func buildQuery(r *FuncResult, o *Oblig, level int) string {
+	goal := And(o.Reach, Not(o.Goal))
+	cands := candidates(r, o)
+	syms := make([][]int, len(cands))
+	freq := map[int]int{}
+	for i, c := range cands {
+		syms[i] = termSyms(c)
+		for _, s := range syms[i] {
+			freq[s]++
+		}
+	}
+	hub := func(s int) bool { return level == 0 && freq[s] > 40 }
+	rel := map[int]bool{}
+	for _, s := range termSyms(goal) {
+		rel[s] = true
+	}
+	included := make([]bool, len(cands))
+	rounds := 0
+	for changed := true; changed; {
+		changed = false
+		rounds++
+		if level == 0 && rounds > 3 {
+			break
+		}
+		var add []int
+		for i := range cands {
+			if included[i] {
+				continue
+			}
+			hit := len(syms[i]) == 0
+			all := true
+			for _, s := range syms[i] {
+				if rel[s] && !hub(s) {
+					hit = true
+					break
+				}
+				if !rel[s] {
+					all = false
+				}
+			}
+			if all {
+				hit = true // talks only about symbols already in the cone
+			}
+			if hit {
+				included[i] = true
+				changed = true
+				add = append(add, i)
+			}
+		}
+		for _, i := range add {
+			for _, s := range syms[i] {
+				rel[s] = true
+			}
+		}
+	}
 	var sc Script
-	sc.Asserts = append(sc.Asserts, r.BaseFacts...)
-	sc.Asserts = append(sc.Asserts, r.Assumes[:o.NAssume]...)
-	sc.Asserts = append(sc.Asserts, And(o.Reach, Not(o.Goal)))
-	q := sc.Render("ALL", nil)
-	return q
+	for i, c := range cands {
+		if included[i] {
+			sc.Asserts = append(sc.Asserts, c)
+		}
+	}
+	sc.Asserts = append(sc.Asserts, goal)
+	return sc.Render("ALL", nil)
 }
 
 var modelRe = regexp.MustCompile(`\(define-fun\s+(\|[^|]*\||[^\s()]+)\s+\(\)\s+(Int|Bool|String)\s+((?s:.*?))\)\s*(?:\n|$)`)
@@ -91,66 +195,24 @@ func runSolver(s solverSpec, query string, timeoutMs int) (status string, out st
 	case "unsat", "sat":
 		return first, out, dur
 	}
-	if strings.HasPrefix(first, "unknown") || strings.HasPrefix(first, "timeout") {
+	if strings.HasPrefix(first, "unknown") || strings.HasPrefix(first, "timeout") || strings.Contains(first, "interrupted by timeout") {
 		return "unknown", out, dur
 	}
 	return "error", out, dur
-}
-
-func solveOne(r *FuncResult, o *Oblig, timeoutMs int, thorough bool) *SolveResult {
-	q := buildQuery(r, o)
-	sum := sha256.Sum256([]byte(q))
-	res := &SolveResult{Oblig: o, QuerySHA: hex.EncodeToString(sum[:8]), Query: q, Status: "unknown"}
-	t0 := time.Now()
-	for _, s := range solvers {
-		st, out, _ := runSolver(s, q, timeoutMs)
-		res.Tried = append(res.Tried, s.name+":"+st)
-		if st == "unsat" || st == "sat" {
-			res.Status, res.Solver, res.Raw = st, s.name, out
-			if st == "sat" {
-				res.Model = parseModel(out)
-			}
-			break
-		}
-		if st == "error" {
-			res.Raw = out
-		}
-	}
-	if thorough && res.Status == "unsat" {
-		// independent confirmation by a different solver
-		for _, s := range solvers {
-			if s.name == res.Solver {
-				continue
-			}
-			st, _, _ := runSolver(s, q, timeoutMs)
-			res.Confirm = s.name + ":" + st
-			if st == "unsat" || st == "sat" {
-				break
-			}
-		}
-	}
-	res.Time = time.Since(t0).Seconds()
-	return res
 }
 
 func solveAll(rs []*FuncResult, timeoutMs int, thorough bool, workers int) []*SolveResult {
 	type job struct {
 		r *FuncResult
 		o *Oblig
-		i int
 	}
 	var jobs []job
 	for _, r := range rs {
 		for _, o := range r.Obligs {
-			jobs = append(jobs, job{r, o, len(jobs)})
+			jobs = append(jobs, job{r, o})
 		}
 	}
 	out := make([]*SolveResult, len(jobs))
-	// queries must be rendered sequentially (term store is not thread-safe)
-	queries := make([]string, len(jobs))
-	for i, j := range jobs {
-		queries[i] = buildQuery(j.r, j.o)
-	}
 	var wg sync.WaitGroup
 	ch := make(chan int)
 	for w := 0; w < workers; w++ {
@@ -158,7 +220,7 @@ func solveAll(rs []*FuncResult, timeoutMs int, thorough bool, workers int) []*So
 		go func() {
 			defer wg.Done()
 			for i := range ch {
-				out[i] = solveQuery(jobs[i].o, queries[i], timeoutMs, thorough)
+				out[i] = solveOblig(jobs[i].r, jobs[i].o, timeoutMs, thorough)
 			}
 		}()
 	}
@@ -170,11 +232,40 @@ func solveAll(rs []*FuncResult, timeoutMs int, thorough bool, workers int) []*So
 	return out
 }
 
-func solveQuery(o *Oblig, q string, timeoutMs int, thorough bool) *SolveResult {
+func solveOblig(r *FuncResult, o *Oblig, timeoutMs int, thorough bool) *SolveResult {
+	t0 := time.Now()
+	var res *SolveResult
+	for level := 0; level <= 1; level++ {
+		q := buildQuery(r, o, level)
+		tm := timeoutMs
+		if level == 0 {
+			tm = timeoutMs / 4
+			if tm < 1000 {
+				tm = 1000
+			}
+		}
+		prev := res
+		res = solveQuery(o, q, tm, thorough, level == 0)
+		res.Level = level
+		if prev != nil {
+			res.Tried = append(prev.Tried, res.Tried...)
+		}
+		if res.Status == "unsat" {
+			break
+		}
+	}
+	res.Time = time.Since(t0).Seconds()
+	res.FR = r
+	return res
+}
+
+func solveQuery(o *Oblig, q string, timeoutMs int, thorough bool, firstOnly bool) *SolveResult {
 	sum := sha256.Sum256([]byte(q))
 	res := &SolveResult{Oblig: o, QuerySHA: hex.EncodeToString(sum[:8]), Query: q, Status: "unknown"}
-	t0 := time.Now()
-	for _, s := range solvers {
+	for i, s := range solvers {
+		if firstOnly && i > 0 {
+			break
+		}
 		st, out, _ := runSolver(s, q, timeoutMs)
 		res.Tried = append(res.Tried, s.name+":"+st)
 		if st == "unsat" || st == "sat" {
@@ -200,6 +291,5 @@ func solveQuery(o *Oblig, q string, timeoutMs int, thorough bool) *SolveResult {
 			}
 		}
 	}
-	res.Time = time.Since(t0).Seconds()
 	return res
 }
